@@ -36,9 +36,53 @@ def observe(buf_codes, funcs, keep_padding):
             "v": [[ord(c) for c in str(k.value)] for k in toks]}
 
 
+ABSOLUTE = [ord(c) for c in "absolute"]
+_REUSED = {}
+
+
+def observe_reused(buf_codes, funcs, keep_padding, n):
+    """the same question put to ONE long-lived Tokenizer per process whose public settings (exclude_padding, functions) are changed
+    between calls - by replacing the table or by editing it in place"""
+    from mathy_core.tokenizer import Tokenizer
+    from mathy_core.expressions import SgnExpression, AbsExpression
+    t = _REUSED.get("t")
+    if t is None or _REUSED["n"] > 5000:
+        t = _REUSED["t"] = Tokenizer()
+        _REUSED["n"] = 0
+    _REUSED["n"] += 1
+    t.exclude_padding = not keep_padding
+    table = {"".join(map(chr, f)): (SgnExpression if f == SGN else AbsExpression) for f in funcs}
+    if n % 2:
+        t.functions = table
+    else:
+        for k in list(t.functions):
+            if k not in table:
+                del t.functions[k]
+        t.functions.update(table)
+    text = "".join(map(chr, buf_codes))
+    try:
+        toks = t.tokenize(text)
+    except BaseException as e:  # noqa
+        return {"ok": False, "exc": type(e).__name__, "t": [], "v": []}
+    return {"ok": True, "exc": "", "t": [TYPEBITS.get(k.type, 14) for k in toks],
+            "v": [[ord(c) for c in str(k.value)] for k in toks]}
+
+
+_COUNT = [0]
+
+
 def make_event(case):
     buf, funcs = case["buf"], case["funcs"]
-    return {"buf": buf, "funcs": funcs, "keep": observe(buf, funcs, True), "drop": observe(buf, funcs, False)}
+    _COUNT[0] += 1
+    if _COUNT[0] % 3000 == 1:
+        common.process_noise(_COUNT[0] // 3000)
+    ev = {"buf": buf, "funcs": funcs, "keep": observe(buf, funcs, True), "drop": observe(buf, funcs, False)}
+    # a reused, reconfigured tokenizer must answer exactly like a new one; where it does not, ITS answer is the observation
+    rk = observe_reused(buf, funcs, True, _COUNT[0])
+    rd = observe_reused(buf, funcs, False, _COUNT[0] // 2)
+    if rk != ev["keep"] or rd != ev["drop"]:
+        ev["keep"], ev["drop"], ev["reused"] = rk, rd, True
+    return ev
 
 
 def domain(ctx):
@@ -50,11 +94,11 @@ def domain(ctx):
                 cases.append({"buf": list(s), "funcs": funcs})
     rule = "all strings of length <= %d over 26 representative code points x 2 function tables" % maxlen
     # words that matter for the function rule, in every context
-    words = ["sgn", "abs", "sgnx", "xsgn", "sg", "gn", "sgn(", "absgn", "sgnabs", "SGN", "Sgn"]
+    words = ["sgn", "abs", "sgnx", "xsgn", "sg", "gn", "sgn(", "absgn", "sgnabs", "SGN", "Sgn", "absolute", "absolut", "absolutes", "f"]
     for w in words:
         for pre in ["", "2", " ", "(", "x", "."]:
             for post in ["", "2", " ", ")", "x", "."]:
-                for funcs in ([SGN], [SGN, ABS]):
+                for funcs in ([SGN], [SGN, ABS], [SGN, ABSOLUTE], [SGN, [102]], [[102], ABS, ABSOLUTE]):
                     cases.append({"buf": [ord(c) for c in pre + w + post], "funcs": funcs})
     # strings that look like other numeric notations, and code points that case-fold / normalise to ASCII letters or digits
     import unicodedata
@@ -97,6 +141,7 @@ def domain(ctx):
         cases.append({"buf": [rng.choice(full if rng.random() < 0.3 else ALPHA26[:-3]) for _ in range(n)],
                       "funcs": rng.choice([[SGN], [SGN, ABS]])})
     rule += "; %d strings in other numeric notations; %d code points that case-fold or normalise to ASCII, alone and between a digit and a letter" % (len(looks), len(special))
+    rule += "; every question also put to one long-lived Tokenizer per process whose exclude_padding / functions are changed between calls (table replaced or edited in place)"
     rule += "; maximal runs of 15..257 digits / letters / blanks / operators; function-name words in 36 contexts; seeded random strings up to length 24 (printable ASCII + some non-ASCII)"
     return cases, rule
 
@@ -129,7 +174,8 @@ def run(ctx, cases=None):
     from multiprocessing import Pool
     with Pool(16) as pool:
         events = pool.map(make_event, cases, chunksize=2000)
-    fails, st = tlc.validate_sharded("TraceTok", "TraceTok.cfg", events, ctx.work, shard_size=max(1500, len(events) // 32 + 1))
+    res.extra["reused_tokenizer_disagreements"] = sum(1 for e in events if e.get("reused"))
+    fails, st = tlc.validate_sharded("TraceTok", "TraceTok.cfg", [{k: v for k, v in e.items() if k != "reused"} for e in events], ctx.work, shard_size=max(1500, len(events) // 32 + 1))
     res.states += st["distinct"]
     res.transitions += st["generated"]
     res.traces = len(events)
@@ -144,7 +190,7 @@ def run(ctx, cases=None):
     for eid, clauses in sorted(fails.items()):
         ev = events[eid - 1]
         text = "".join(map(chr, ev["buf"]))
-        res.violations.append(Violation(signature(ev, clauses), "tokenize(%r) fails %s" % (text, clauses),
+        res.violations.append(Violation(signature(ev, clauses), "tokenize(%r)%s fails %s" % (text, " on a reused, reconfigured Tokenizer" if ev.get("reused") else "", clauses),
                                         {"buf": ev["buf"], "funcs": ev["funcs"]}, clauses))
     return res
 
